@@ -102,14 +102,44 @@ pub fn dur_speed1(mean: f64) -> (usize, bool) {
     (d, t != 0.0 && t < 1e-9 && mean > 0.4)
 }
 
-/// total-length law for speed s: max(round(F1/s), nstates); returns (value, ambiguous)
+/// total-length law for speed s: max(round(F1/s), nstates); returns (value, ambiguous).
+/// `x = fl(F1/s)` is the correctly rounded quotient, and k + 0.5 is representable, so x on one
+/// side of a tie puts the exact quotient on the same side: the law is ambiguous only when x
+/// lands exactly on a tie while the exact quotient does not.
 pub fn total_at_speed(f1: usize, speed: f64, nstates: usize) -> (usize, bool) {
     let x = f1 as f64 / speed;
     let t = round_half_away(x).max(1.0) as usize;
-    // an exactly representable tie (x == k + 0.5) is rounded away from zero by every correct
-    // evaluation; only near-ties depend on the evaluation order
-    let td = tie_distance(x);
-    (t.max(nstates), td != 0.0 && td < 1e-7)
+    let on_tie = x.is_finite() && (x - x.floor()) == 0.5;
+    (t.max(nstates), on_tie && !exact_half_quotient(f1, speed, x.floor()))
+}
+
+/// F1 / s == k + 0.5 in exact arithmetic (s taken as the exact binary value it is)
+fn exact_half_quotient(f1: usize, s: f64, k: f64) -> bool {
+    if !(s.is_finite() && s > 0.0 && k >= 0.0 && k < 1e15) {
+        return false;
+    }
+    let bits = s.to_bits();
+    let exp = ((bits >> 52) & 0x7ff) as i64;
+    let frac = bits & ((1u64 << 52) - 1);
+    let (mant, e) = if exp == 0 { (frac, -1074) } else { (frac | (1u64 << 52), exp - 1075) };
+    // 2 F1 == mant * 2^e * (2k + 1)
+    let lhs = 2u128 * f1 as u128;
+    let Some(rhs) = (mant as u128).checked_mul(2 * (k as u128) + 1) else { return false };
+    if e >= 0 {
+        match rhs.checked_shl(e as u32) {
+            Some(r) if e < 128 && (r >> e) == rhs => lhs == r,
+            _ => false,
+        }
+    } else {
+        let sh = (-e) as u32;
+        if sh >= 128 {
+            return false;
+        }
+        match lhs.checked_shl(sh) {
+            Some(l) if (l >> sh) == lhs => l == rhs,
+            _ => false,
+        }
+    }
 }
 
 pub fn voiced_mask(lf0: &[Vec<f64>]) -> Vec<bool> {
